@@ -22,22 +22,22 @@ MAP_FIELDS = {"labels", "sel"}
 
 SCOPE = {
     # closed-model scope (exhaustive), generator scope, number of TLC scenarios replayed, explorer batches per profile
-    "quick": dict(mc="NPods = 2  PodArchs = {2,4,5,7,9,11,12}  Catalogs = {4,5}  PoolSets = {3,5}  Existings = {3,4}  Daemons = {2,3}",
+    "quick": dict(mc="NPods = 2  PodArchs = {2,4,5,9,11,12,13}  Catalogs = {4,5}  PoolSets = {3,5}  Existings = {4,5}  Daemons = {2,3}",
                   # quick samples from a scope without the sub-case ids (catalog 1/3, existing 1/2); thorough enumerates everything
-                  gen="NPods = 2  PodArchs = {1,2,3,4,5,6,7,8,9,10,11,12}  Catalogs = {2,4,5,6}  PoolSets = {1,2,3,4,5}  Existings = {0,3,4}  Daemons = {0,1,2,3}",
+                  gen="NPods = 2  PodArchs = {1,2,3,4,5,6,7,8,9,10,11,12,13}  Catalogs = {2,4,5,6}  PoolSets = {1,2,3,4,5}  Existings = {0,3,4,5}  Daemons = {0,1,2,3}",
                   replay=600, explore={"basic": 500, "interpod": 150, "reserved": 150}, mc_workers=None),
     # (measured: the full 24 960-scenario scope has 475 656 states / 13 min on 16 shared cores; pool set 1 and existing state 2 are
     #  sub-cases of pool set 2 / existing state 3, dropping them keeps the closed model at ~60 %)
-    "thorough": dict(mc="NPods = 2  PodArchs = {1,2,3,4,5,6,7,8,9,10,11,12}  Catalogs = {2,3,4,5}  PoolSets = {2,3,4,5}  Existings = {0,3,4}  Daemons = {0,2,3}",
-                     gen="NPods = 2  PodArchs = {1,2,3,4,5,6,7,8,9,10,11,12}  Catalogs = {1,2,3,4,5,6}  PoolSets = {1,2,3,4,5}  Existings = {0,1,2,3,4}  Daemons = {0,1,2,3}",
-                     mc3="NPods = 3  PodArchs = {2,4,9,11}  Catalogs = {2,5}  PoolSets = {3,5}  Existings = {0,4}  Daemons = {1,3}",
-                     gen3="NPods = 3  PodArchs = {2,4,5,8,9,10,11,12}  Catalogs = {2,5}  PoolSets = {1,3,5}  Existings = {3,4}  Daemons = {1,3}",
+    "thorough": dict(mc="NPods = 2  PodArchs = {1,2,3,4,5,6,7,8,9,10,11,12,13}  Catalogs = {2,3,4,5}  PoolSets = {2,3,4,5}  Existings = {0,4,5}  Daemons = {0,2,3}",
+                     gen="NPods = 2  PodArchs = {1,2,3,4,5,6,7,8,9,10,11,12,13}  Catalogs = {2,3,4,5,6}  PoolSets = {1,2,3,4,5}  Existings = {0,1,2,3,4,5}  Daemons = {0,1,2,3}",
+                     mc3="NPods = 3  PodArchs = {2,4,9,11,13}  Catalogs = {2,5}  PoolSets = {3,5}  Existings = {5}  Daemons = {1,3}",
+                     gen3="NPods = 3  PodArchs = {2,4,5,8,9,11,12,13}  Catalogs = {2,5}  PoolSets = {1,3,5}  Existings = {4,5}  Daemons = {1,3}",
                      replay=None, explore={"basic": 4000, "interpod": 1000, "reserved": 1000}, mc_workers=None),
 }
 WEAK = {"Avail": "Inv_C01_EveryLaunchOptionHostsItsPods", "Overhead": None, "Ports": "Inv_C01_EveryLaunchOptionHostsItsPods",
         "KeepTerm": "Inv_C01_RequiredTermNeverDropped", "Override": "Inv_C01_EveryLaunchOptionHostsItsPods", "OverrideOverhead": "Inv_C01_EveryLaunchOptionHostsItsPods",
-        "Refilter": "Inv_C01_EveryLaunchOptionHostsItsPods"}
-FLAGS = "W_Avail = TRUE  W_Overhead = TRUE  W_Ports = TRUE  W_KeepTerm = TRUE  W_Override = TRUE  W_Refilter = TRUE"
+        "Refilter": "Inv_C01_EveryLaunchOptionHostsItsPods", "InitTaints": "Inv_C01_NoOvercommit"}
+FLAGS = "W_Avail = TRUE  W_Overhead = TRUE  W_Ports = TRUE  W_KeepTerm = TRUE  W_Override = TRUE  W_Refilter = TRUE  W_InitTaints = TRUE"
 
 
 def fix_maps(x, key=None):
